@@ -212,13 +212,14 @@ def main(argv=None):
         checker_problems.append("%s: %s" % (r['name'], r['outside']))
     if native_error:
         checker_problems.append("native part crashed: " + native_error.strip().splitlines()[-1])
-    second = {'agree': 0, 'no_answer': 0, 'disagree': []}
+    second = {'agree': 0, 'no_answer': 0, 'disagree': [], 'not_asked': 0}
     for r in results:
         so = r.get('second_opinion')
         if so:
             second['agree'] += so['agree']
             second['no_answer'] += so['no_answer']
             second['disagree'] += so['disagree']
+            second['not_asked'] += so.get('not_asked', 0)
     for n in second['disagree']:
         checker_problems.append("solvers disagree on %s (z3: proved, cvc5: sat on the same hypotheses)" % n)
     for r in results:
@@ -326,7 +327,7 @@ def main(argv=None):
     }
     if tier == 'thorough':
         coverage['second_solver'] = {'cvc5_confirms': second['agree'], 'cvc5_no_answer_in_10s': second['no_answer'],
-                                     'disagreements': second['disagree']}
+                                     'not_asked_time_budget_used_up': second['not_asked'], 'disagreements': second['disagree']}
     if nat_cov:
         coverage['bounded'] = nat_cov
         ev = sum(c.get('evaluations', 0) for c in nat_cov)
